@@ -121,4 +121,15 @@ def Separated (a b : Seg) : Prop :=
 def sharesLabel (a b : Seg) : Bool :=
   a.pairs.any fun p => b.pairs.any fun p' => decide (p.r.site = p'.r.site) || decide (p.q.site = p'.q.site)
 
+/-- the parameter ranges the option help allows and the factory accepts -/
+structure GoodParams (P : Params) : Prop where
+  su_nonpos  : P.su ≤ 0
+  ms_pos     : 0 < P.minScore
+  bst_nonneg : 0 ≤ P.bst
+  md_nonneg  : 0 ≤ P.md
+
+/-- the position list one seed peak produces (aligner.py:105-111) -/
+def peakPositions (P : Params) (ref qry : OMap) (rev : Bool) (it peak : Int) : List APos :=
+  engineAlign P.md ref qry peak (peak + qry.length) rev it
+
 end Coma.Spec
